@@ -34,6 +34,14 @@ check("C03", "TLC enumeration of WxmlExpr/Literals + replay through compiler and
       "DESIGN.md §4.2, §6 C03")
 
 
+check("C04", "TLC enumeration of WxmlSem families with Render attached + replay through compiler and reference runtime",
+      "TLC enumerates template families F1-F5 of spec/MCWxmlSem.tla (every attribute family x value kind, nested "
+      "structural pairs, text piece sequences, if-chains, list kinds x keys x scope names) x a data pool, computes the "
+      "tree Render denotes and checks the comment/block insensitivity laws; each case is concretised in 2-6 syntactic "
+      "variants, compiled, created under the reference runtime, projected and compared node by node.",
+      "DESIGN.md §4.3, §6 C04")
+
+
 def main():
     props = [json.loads(l) for l in open(os.path.join(HERE, "properties.jsonl"))]
     ids = [p["id"] for p in props]
